@@ -76,6 +76,7 @@ def run(ctx):
             args = I.gen_args(rng, spec, s, p_valid=0.85)
             one_case(ctx, li, spec, ops, s, args)
     handover_family(ctx)
+    barevar_family(ctx)
     corpus(ctx)
 
 
@@ -122,6 +123,43 @@ def handover_family(ctx):
             args.append((0, rng.choice(chain)))
         ctx.count("handover_cases")
         one_case(ctx, "handover", spec, ops, s, args)
+
+
+def barevar_family(ctx):
+    """elimination constraints whose alternatives are bare signature variables next to base types (`y << [x, Z(b), x]`, `y << [b', x]`), over a
+    tree of base types with siblings: what `minimize` keeps depends on whether a variable is still unresolved when it is compared"""
+    rng = ctx.rng
+    decls = list(G.BUILTIN_DECLS) + [("A", [], None), ("A1", [], 5), ("A11", [], 6), ("A2", [], 5), ("B", [], None), ("Z", [True], None)]
+    spec = G.LangSpec(decls)
+    ops = spec.build()
+    ctx.setup(spec.sexp(), "ok T")
+    bases = [(5, ()), (6, ()), (7, ()), (8, ()), (9, ())]
+    x, y, z = ('v', 0), ('v', 1), ('v', 2)
+
+    def alt(pool):
+        r = rng.random()
+        if r < 0.45:
+            return rng.choice(pool)
+        if r < 0.8:
+            return rng.choice(bases)
+        return (10, (rng.choice(bases + pool),))
+    for n in range(30 if ctx.tier == "quick" else 200):
+        cs = []
+        if rng.random() < 0.7:
+            cs.append(('sub', rng.choice([x, z]), rng.choice(bases), False))
+        cs.append(('elim', y, [alt([x]) for _ in range(rng.randint(2, 3))]))
+        cs.append(('elim', rng.choice([y, y, x]), [alt([x, z]) for _ in range(rng.randint(2, 3))]))
+        if n < 3:
+            # (the shape with which a seeded change was first reported without a failing input)
+            cs = [('sub', z, (7, ()), False), ('elim', y, [x, (10, ((7, ()),)), x]), ('elim', y, [(8, ()), x])]
+        rng.shuffle(cs) if n >= 3 else None
+        body = (G.FUN, (x, (G.FUN, (y, z))))
+        s = {"nvars": 3, "nwild": 0, "body": body, "constraints": cs}
+        args = [(0, (8, ()) if n < 3 else rng.choice(bases))]
+        if rng.random() < 0.4 and n >= 3:
+            args.append((0, rng.choice(bases)))
+        ctx.count("barevar_cases")
+        one_case(ctx, "barevar", spec, ops, s, args)
 
 
 def gen_schema_many(rng, spec):
